@@ -1130,13 +1130,18 @@ fn check_tracker(r: &MemRun, tracker: &[u8], after: &str, out: &mut Out) {
 }
 
 fn mem_program(rng: &mut Rng, out: &mut Out, nops: usize) {
-    let (page_size, region_pages): (usize, u32) = match rng.below(6) {
+    let (page_size, region_pages): (usize, u32) = match rng.below(9) {
         0 => (512, 16),
         1 => (512, 64),
         2 => (4096, 64),
         3 => (65536, 8),
         4 => (65536, 4),
-        _ => (16384, 32),
+        5 => (16384, 32),
+        // regions larger than the initial file: the first region starts partial, growth fills it out and
+        // later creates a PARTIAL trailing region that is filled out in turn (Allocators::resize_to "brand new region")
+        6 => (4096, 1024),
+        7 => (512, 4096),
+        _ => (16384, 128),
     };
     let m = match VAllocMem::new(page_size, u64::from(region_pages) * page_size as u64) {
         Ok(m) => m,
